@@ -269,6 +269,34 @@ def validate_episodes(c, module, trace, describe, canary, label, workers=8, time
     return recs, eps, r, idx
 
 
+def split_trace(path, max_events=120000):
+    """Split an ndjson trace into shard files at episode boundaries (records with "k":0 start an episode) without loading it.
+    Returns [(shard path, first record index, record count)]."""
+    shards = []
+    out = None
+    count = 0
+    start = 0
+    total = 0
+    with open(path) as f:
+        for ln in f:
+            if not ln.strip():
+                continue
+            if out is None or (count >= max_events and ln.startswith('{"k":0,')):
+                if out is not None:
+                    out.close()
+                    shards.append((out.name, start, count))
+                    start += count
+                out = open("%s.shard%d" % (path, len(shards)), "w")
+                count = 0
+            out.write(ln)
+            count += 1
+            total += 1
+    if out is not None:
+        out.close()
+        shards.append((out.name, start, count))
+    return shards
+
+
 def read_ndjson(path):
     with open(path) as f:
         return [json.loads(ln) for ln in f if ln.strip()]
